@@ -1,6 +1,11 @@
 package datatype
 
-import "errors"
+import (
+	"encoding/binary"
+	"errors"
+	bitcask "github.com/XiXi-2024/xixi-kv"
+	"time"
+)
 
 // Del 删除key
 func (dts *DataTypeService) Del(key []byte) error {
@@ -16,6 +21,11 @@ func (dts *DataTypeService) Type(key []byte) (dataType, error) {
 
 	if len(encValue) == 0 {
 		return 0, errors.New("value is null")
+	}
+
+	// 已过期的 key 视为不存在
+	if expire, _ := binary.Varint(encValue[1:]); expire != 0 && expire <= time.Now().UnixNano() {
+		return 0, bitcask.ErrKeyNotFound
 	}
 
 	return encValue[0], nil
